@@ -5,9 +5,14 @@
    Model/Diag.v (SourceReport, PassResult and the way parse_events combines the parser's
    diagnostics with those of the analysis: error.rs:190-369, event_consumer.rs:116-233),
    Model/Analysis.v (the analysis pass; of its report it keeps the bit "an error was reported"
-   and whether a parser error stopped it; tied to the code by the L-rec correspondence of C06).
+   and whether a parser error stopped it; tied to the code by the L-rec correspondence of C06),
+   Model/AnalysisDiag.v (a decoration of Model/Analysis.v: the 24 diagnostics of
+   event_consumer.rs with severity and labels in order; same state transition, proved to have the
+   same error bit; its labels proved to be those of the label-site enumeration of C04; tied to the
+   code by the L-diag correspondence of checks/c07.py: severity and label spans, in order, of the
+   Analysis-stage diagnostics of every generated case).
 
-   Proved here, for every input / event stream / extension set / Unicode classification:
+   Proved here, for every input / event stream / extension set / Unicode classification / oracle:
      - the validity equation, the parse-error short circuit, that an analysis error keeps the
        output - on Model/Diag.v (full reports) and again on Model/Analysis.v (the model that is
        run against the implementation);
@@ -15,16 +20,30 @@
        constructs of the statement: empty name, zero denominator, empty value, unit on cookware,
        timer without unit / without duration / with modifiers / with an alias, duplicate
        modifier, bad alias (empty, multiple);
-     - completeness as "an error is reported" (the analysis model has no labels) for: dangling
-       reference, note on a reference, intermediate reference 0 / out of range, non-time timer
-       unit, malformed front matter, bad mode value.
+     - completeness with severity and placement of the FIRST label on the offending part of the
+       event, for the analysis-stage constructs ([C07_*_placed], over Model/AnalysisDiag.v):
+       dangling reference, forbidden new+ref / intermediate modifiers, out-of-range intermediate
+       reference, conflicting reference modifiers / quantities / units, note on a reference,
+       non-time timer unit and text duration, bad mode value, malformed front matter (REFUTED for
+       the code before 45a4888, where an error that serde_yaml does not locate had no label:
+       C07_front_matter_unlabeled_refuted_before_fix); each lifts to the final report
+       (C07_placed_reported);
+     - severity / validity: Error kinds invalidate, Warning kinds never do, by enumeration of the
+       24 kinds (C07_severity_validity*, C07_error_kind_invalidates, C07_report_is_model_trace);
+     - soundness of the analysis stage on a decidable class of clean event streams
+       (C07_clean_run_sound, C07_analysis_sound_partial).
+   Satisfiability of every hypothesis set and non-triviality of the clean class: the Examples of
+   Proofs/DiagExamples.v (parser model run on the catalogue's constructs), collected in
+   [C07_examples] at the end.
    Not proved (decided on every run by the monitor of checks/c07.py on the implementation):
-   soundness on well-formed recipes (needs the printer/well-formedness of C01), the labels of
-   analysis diagnostics, and the lift of the component lemmas to an arbitrary placement inside a
-   document - see [C07_full_statement] at the end. *)
+   soundness on ALL well-formed recipes (needs the printer/well-formedness of C01), and the lift of
+   the component lemmas to an arbitrary placement inside a document - see [C07_full_statement]. *)
 From Coq Require Import ZArith.
 From CL Require Import Base.StrLemmas Model.Parser Model.Diag Proofs.DiagProofs.
 From CL Require Model.Analysis Proofs.DiagAnalysisProofs.
+From CL Require Import Model.EventBridge Model.AnalysisLabels Model.AnalysisDiag Proofs.DiagPlaced
+  Proofs.DiagLabelSites Proofs.AnalysisSound.
+From CL Require Proofs.DiagExamples.
 Open Scope N_scope.
 
 (* ================================================================ validity, short circuit *)
@@ -250,9 +269,9 @@ Theorem C07_component_diagnostics_survive :
 Proof. exact ingredient_p_inv. Qed.
 Print Assumptions C07_component_diagnostics_survive.
 
-(* ================================================================ completeness, analysis stage
+(* ================================================================ completeness, analysis stage, error bit
    (Model/Analysis.v: "an error is reported"; the result then keeps its output and is not valid
-   by C07_analysis_error_keeps_output_analysis) *)
+   by C07_analysis_error_keeps_output_analysis; severity and labels: the next section) *)
 
 (* dangling reference: `&` and no earlier non-reference component of that name *)
 Theorem C07_complete_dangling_reference :
@@ -338,6 +357,620 @@ Theorem C07_complete_bad_mode_value :
     Analysis.a_errors (Analysis.metadata x s k v) = true.
 Proof. exact DiagAnalysisProofs.bad_mode_value_is_error. Qed.
 Print Assumptions C07_complete_bad_mode_value.
+
+(* ================================================================ analysis stage: severity, placement,
+   soundness - over Model/AnalysisDiag.v.
+   [dstep .. dc .. st ev]: the collector's transition on one event ([Analysis.step] on the bridged
+   event) and the diagnostics it pushes meanwhile; [drun] a stream; [astep]/[afinish] the same as the
+   two parameters of [Diag.parse_events]; [dc] selects the code as it is now ([dcfg_now]) or before a
+   repair.  [placed ds sev sp]: ds holds a diagnostic of severity sev and stage Analysis whose FIRST
+   label lies inside the span sp.  [in_step_block st]: inside a step, not in text mode.
+   [refers_to .. j]: treated as a reference (1160-1162) to the definition at index j.
+   Line numbers: event_consumer.rs as of 17e6a01 (the numbering of AnalysisLabels.label_sites). *)
+
+(* the decorated run is a run of Model/Analysis.v (the model compared with the implementation by the
+   L-rec correspondence of C06) on the bridged stream: decorating changes no state *)
+Theorem C07_analysis_model_refines :
+  forall (ci_key : str -> str) (yaml_ok : str -> bool) (find_iq : str -> option (str * str))
+    (unit_class : str -> N) (input : str) (x : Analysis.aext) (cfg : Analysis.acfg) 
+    (dc : dcfg) (yaml_err_index : str -> option N) (yaml_std_bad : str -> list str)
+    (yaml_has_key std_check : str -> str -> bool) (is_alnum : N -> bool) (unit_pq : str -> option N)
+    (evs : list pevent) (st st' : dstate) (ds : list adiag),
+  drun ci_key yaml_ok find_iq unit_class input x cfg dc yaml_err_index yaml_std_bad yaml_has_key
+    std_check is_alnum unit_pq st evs = Done (st', ds) ->
+  Analysis.run ci_key yaml_ok find_iq unit_class input x cfg (ds_a st) (abstract_events evs) =
+  Done (ds_a st').
+Proof. exact drun_run. Qed.
+Print Assumptions C07_analysis_model_refines.
+
+(* one event: the error bit of Model/Analysis.v after it is the bit before it or "one of the diagnostics
+   pushed for this event has severity Error" - for every event kind, state, extension record and oracle *)
+Theorem C07_severity_validity_step :
+  forall (ci_key : str -> str) (yaml_ok : str -> bool) (find_iq : str -> option (str * str))
+    (unit_class : str -> N) (input : str) (x : Analysis.aext) (cfg : Analysis.acfg) 
+    (dc : dcfg) (yaml_err_index : str -> option N) (yaml_std_bad : str -> list str)
+    (yaml_has_key std_check : str -> str -> bool) (is_alnum : N -> bool) (unit_pq : str -> option N)
+    (st : dstate) (ev : pevent) (st' : dstate) (ds : list adiag),
+  Analysis.a_halted (ds_a st) = false ->
+  dstep ci_key yaml_ok find_iq unit_class input x cfg dc yaml_err_index yaml_std_bad yaml_has_key
+    std_check is_alnum unit_pq st ev = Done (st', ds) ->
+  Analysis.a_errors (ds_a st') = Analysis.a_errors (ds_a st) || errs ds.
+Proof. exact dstep_errors. Qed.
+Print Assumptions C07_severity_validity_step.
+
+(* a whole stream without parser error: the result is valid exactly when no diagnostic of severity Error
+   was pushed; whatever Warning-severity diagnostics were pushed play no part *)
+Theorem C07_severity_validity :
+  forall (ci_key : str -> str) (yaml_ok : str -> bool) (find_iq : str -> option (str * str))
+    (unit_class : str -> N) (input : str) (x : Analysis.aext) (cfg : Analysis.acfg) 
+    (dc : dcfg) (yaml_err_index : str -> option N) (yaml_std_bad : str -> list str)
+    (yaml_has_key std_check : str -> str -> bool) (is_alnum : N -> bool) (unit_pq : str -> option N)
+    (evs : list pevent) (st : dstate) (ds : list adiag),
+  existsb is_perror evs = false ->
+  drun ci_key yaml_ok find_iq unit_class input x cfg dc yaml_err_index yaml_std_bad yaml_has_key
+    std_check is_alnum unit_pq dinit evs = Done (st, ds) ->
+  Analysis.is_valid (ds_a st) = negb (errs ds).
+Proof. exact drun_valid_no_parse_error. Qed.
+Print Assumptions C07_severity_validity.
+
+(* the 24 kinds of analysis diagnostics (one per error!/warning! expression of event_consumer.rs): the
+   enumeration [all_kinds] is complete *)
+Theorem C07_kinds_enumerated :
+  forall k : akind, In k all_kinds.
+Proof. exact all_kinds_complete. Qed.
+Print Assumptions C07_kinds_enumerated.
+
+(* ... twelve are built with error!/ctx.error, twelve with warning!/ctx.warn *)
+Theorem C07_kinds_partition :
+  forall k : akind,
+  (kind_is_error k = true <-> In k error_kinds) /\ (kind_is_error k = false <-> In k warning_kinds).
+Proof. exact kinds_partition. Qed.
+Print Assumptions C07_kinds_partition.
+
+(* ... and that is the severity (and the stage is Analysis) of the SourceDiag *)
+Theorem C07_kind_severity :
+  forall d : adiag,
+  sd_is_error (to_sdiag d) = kind_is_error (ad_kind d) /\ sd_stage (to_sdiag d) = StAnalysis.
+Proof. exact to_sdiag_severity. Qed.
+Print Assumptions C07_kind_severity.
+
+(* severity / validity by kind: a stream without parser error is invalid exactly when a diagnostic of one of
+   the twelve Error kinds was pushed; diagnostics of the twelve Warning kinds never invalidate *)
+Theorem C07_error_kind_invalidates :
+  forall (ci_key : str -> str) (yaml_ok : str -> bool) (find_iq : str -> option (str * str))
+    (unit_class : str -> N) (input : str) (x : Analysis.aext) (cfg : Analysis.acfg) 
+    (dc : dcfg) (yaml_err_index : str -> option N) (yaml_std_bad : str -> list str)
+    (yaml_has_key std_check : str -> str -> bool) (is_alnum : N -> bool) (unit_pq : str -> option N)
+    (evs : list pevent) (st : dstate) (ds : list adiag),
+  existsb is_perror evs = false ->
+  drun ci_key yaml_ok find_iq unit_class input x cfg dc yaml_err_index yaml_std_bad yaml_has_key
+    std_check is_alnum unit_pq dinit evs = Done (st, ds) ->
+  (Analysis.is_valid (ds_a st) = false <-> (exists d : adiag, In d ds /\ In (ad_kind d) error_kinds)) /\
+  (Forall (fun d : adiag => In (ad_kind d) warning_kinds) ds -> Analysis.is_valid (ds_a st) = true).
+Proof. exact error_kind_invalidates. Qed.
+Print Assumptions C07_error_kind_invalidates.
+
+(* what parse_events (Model/Diag.v) reports with this collector: the parser's warnings and the trace of
+   the decorated collector followed by the `>>` notice, each in order; PassResult::is_valid is "no Error
+   in the trace" and agrees with the validity of Model/Analysis.v *)
+Theorem C07_report_is_model_trace :
+  forall (ci_key : str -> str) (yaml_ok : str -> bool) (find_iq : str -> option (str * str))
+    (unit_class : str -> N) (input : str) (x : Analysis.aext) (cfg : Analysis.acfg) 
+    (dc : dcfg) (yaml_err_index : str -> option N) (yaml_std_bad : str -> list str)
+    (yaml_has_key std_check : str -> str -> bool) (is_alnum : N -> bool) (unit_pq : str -> option N)
+    (dbg : bool) (evs : list pevent) (res : pass_result dstate),
+  existsb is_perror evs = false ->
+  parse_events dstate
+    (astep ci_key yaml_ok find_iq unit_class input x cfg dc yaml_err_index yaml_std_bad yaml_has_key
+       std_check is_alnum unit_pq) afinish dbg dinit evs = Done res ->
+  exists (st : dstate) (ds : list adiag),
+    drun ci_key yaml_ok find_iq unit_class input x cfg dc yaml_err_index yaml_std_bad yaml_has_key
+      std_check is_alnum unit_pq dinit evs = Done (st, ds) /\
+    filter is_analysis (diags res) = map to_sdiag (ds ++ dfinish st) /\
+    filter sd_is_parse (diags res) = map of_pdiag (pdiags evs) /\
+    is_valid res = negb (errs ds) /\ is_valid res = Analysis.is_valid (ds_a st).
+Proof. exact report_is_trace. Qed.
+Print Assumptions C07_report_is_model_trace.
+
+(* a diagnostic placed on a construct by the step that processes the offending event is in the final
+   report, with the same severity and first label (stream without parser error, any position) *)
+Theorem C07_placed_reported :
+  forall (ci_key : str -> str) (yaml_ok : str -> bool) (find_iq : str -> option (str * str))
+    (unit_class : str -> N) (input : str) (x : Analysis.aext) (cfg : Analysis.acfg) 
+    (dc : dcfg) (yaml_err_index : str -> option N) (yaml_std_bad : str -> list str)
+    (yaml_has_key std_check : str -> str -> bool) (is_alnum : N -> bool) (unit_pq : str -> option N)
+    (dbg : bool) (pre : list pevent) (ev : pevent) (post : list pevent) (res : pass_result dstate)
+    (st : dstate) (d0 : list adiag) (st' : dstate) (ds : list adiag) (sev : severity) 
+    (sp : span),
+  existsb is_perror (pre ++ ev :: post) = false ->
+  parse_events dstate
+    (astep ci_key yaml_ok find_iq unit_class input x cfg dc yaml_err_index yaml_std_bad yaml_has_key
+       std_check is_alnum unit_pq) afinish dbg dinit (pre ++ ev :: post) = 
+  Done res ->
+  drun ci_key yaml_ok find_iq unit_class input x cfg dc yaml_err_index yaml_std_bad yaml_has_key
+    std_check is_alnum unit_pq dinit pre = Done (st, d0) ->
+  dstep ci_key yaml_ok find_iq unit_class input x cfg dc yaml_err_index yaml_std_bad yaml_has_key
+    std_check is_alnum unit_pq st ev = Done (st', ds) ->
+  placed ds sev sp ->
+  exists (d : sdiag) (l : span),
+    In d (diags res) /\
+    sd_sev d = sev /\ sd_stage d = StAnalysis /\ hd_error (sd_labels d) = Some l /\ span_within l sp.
+Proof. exact placed_reported. Qed.
+Print Assumptions C07_placed_reported.
+
+(* dangling reference (1212-1225): an ingredient treated as a reference (`&`, or every ingredient in steps
+   mode) whose name matches no earlier non-reference ingredient.  Error; first label: the component *)
+Theorem C07_dangling_reference_placed :
+  forall (ci_key : str -> str) (yaml_ok : str -> bool) (find_iq : str -> option (str * str))
+    (unit_class : str -> N) (input : str) (x : Analysis.aext) (cfg : Analysis.acfg) 
+    (dc : dcfg) (yaml_err_index : str -> option N) (yaml_std_bad : str -> list str)
+    (yaml_has_key std_check : str -> str -> bool) (is_alnum : N -> bool) (unit_pq : str -> option N)
+    (st : dstate) (i : ingredient) (st' : dstate) (ds : list adiag),
+  Analysis.a_halted (ds_a st) = false ->
+  in_step_block st ->
+  i_inter i = None ->
+  treated_as_ref ci_key (ds_a st) (Analysis.a_ingredients (ds_a st)) (imods i) (iname i) = true ->
+  Analysis.same_name ci_key (Analysis.a_ingredients (ds_a st)) (iname i) = None ->
+  dstep ci_key yaml_ok find_iq unit_class input x cfg dc yaml_err_index yaml_std_bad yaml_has_key
+    std_check is_alnum unit_pq st (EvIngredient i) = Done (st', ds) -> placed ds SevError (i_span i).
+Proof. exact dangling_reference_placed. Qed.
+Print Assumptions C07_dangling_reference_placed.
+
+(* ... cookware *)
+Theorem C07_dangling_reference_cookware_placed :
+  forall (ci_key : str -> str) (yaml_ok : str -> bool) (find_iq : str -> option (str * str))
+    (unit_class : str -> N) (input : str) (x : Analysis.aext) (cfg : Analysis.acfg) 
+    (dc : dcfg) (yaml_err_index : str -> option N) (yaml_std_bad : str -> list str)
+    (yaml_has_key std_check : str -> str -> bool) (is_alnum : N -> bool) (unit_pq : str -> option N)
+    (st : dstate) (c : cookware) (st' : dstate) (ds : list adiag),
+  Analysis.a_halted (ds_a st) = false ->
+  in_step_block st ->
+  treated_as_ref ci_key (ds_a st) (Analysis.a_cookware (ds_a st)) (cmods c) (cname c) = true ->
+  Analysis.same_name ci_key (Analysis.a_cookware (ds_a st)) (cname c) = None ->
+  dstep ci_key yaml_ok find_iq unit_class input x cfg dc yaml_err_index yaml_std_bad yaml_has_key
+    std_check is_alnum unit_pq st (EvCookware c) = Done (st', ds) -> placed ds SevError (c_span c).
+Proof. exact dangling_reference_cookware_placed. Qed.
+Print Assumptions C07_dangling_reference_cookware_placed.
+
+(* forbidden modifiers: new (+) with ref (&) (1122-1129; with intermediate data 613-625).  Error; first
+   label: the modifiers *)
+Theorem C07_new_ref_modifiers_placed :
+  forall (ci_key : str -> str) (yaml_ok : str -> bool) (find_iq : str -> option (str * str))
+    (unit_class : str -> N) (input : str) (x : Analysis.aext) (cfg : Analysis.acfg) 
+    (dc : dcfg) (yaml_err_index : str -> option N) (yaml_std_bad : str -> list str)
+    (yaml_has_key std_check : str -> str -> bool) (is_alnum : N -> bool) (unit_pq : str -> option N)
+    (st : dstate) (i : ingredient) (st' : dstate) (ds : list adiag),
+  Analysis.a_halted (ds_a st) = false ->
+  in_step_block st ->
+  Events.m_new (imods i) && Events.m_ref (imods i) = true ->
+  dstep ci_key yaml_ok find_iq unit_class input x cfg dc yaml_err_index yaml_std_bad yaml_has_key
+    std_check is_alnum unit_pq st (EvIngredient i) = Done (st', ds) ->
+  placed ds SevError (i_mods_span i).
+Proof. exact new_ref_modifiers_placed. Qed.
+Print Assumptions C07_new_ref_modifiers_placed.
+
+(* ... cookware *)
+Theorem C07_new_ref_modifiers_cookware_placed :
+  forall (ci_key : str -> str) (yaml_ok : str -> bool) (find_iq : str -> option (str * str))
+    (unit_class : str -> N) (input : str) (x : Analysis.aext) (cfg : Analysis.acfg) 
+    (dc : dcfg) (yaml_err_index : str -> option N) (yaml_std_bad : str -> list str)
+    (yaml_has_key std_check : str -> str -> bool) (is_alnum : N -> bool) (unit_pq : str -> option N)
+    (st : dstate) (c : cookware) (st' : dstate) (ds : list adiag),
+  Analysis.a_halted (ds_a st) = false ->
+  in_step_block st ->
+  Events.m_new (cmods c) && Events.m_ref (cmods c) = true ->
+  dstep ci_key yaml_ok find_iq unit_class input x cfg dc yaml_err_index yaml_std_bad yaml_has_key
+    std_check is_alnum unit_pq st (EvCookware c) = Done (st', ds) ->
+  placed ds SevError (c_mods_span c).
+Proof. exact new_ref_modifiers_cookware_placed. Qed.
+Print Assumptions C07_new_ref_modifiers_cookware_placed.
+
+(* forbidden modifiers: an intermediate reference with RECIPE, HIDDEN or NEW (613-625).  Error; first
+   label: the modifiers *)
+Theorem C07_intermediate_modifiers_placed :
+  forall (ci_key : str -> str) (yaml_ok : str -> bool) (find_iq : str -> option (str * str))
+    (unit_class : str -> N) (input : str) (x : Analysis.aext) (cfg : Analysis.acfg) 
+    (dc : dcfg) (yaml_err_index : str -> option N) (yaml_std_bad : str -> list str)
+    (yaml_has_key std_check : str -> str -> bool) (is_alnum : N -> bool) (unit_pq : str -> option N)
+    (st : dstate) (i : ingredient) (d : interdata) (st' : dstate) (ds : list adiag),
+  Analysis.a_halted (ds_a st) = false ->
+  in_step_block st ->
+  i_inter i = Some d ->
+  Events.mods_intersects (imods i) Analysis.inter_invalid = true ->
+  dstep ci_key yaml_ok find_iq unit_class input x cfg dc yaml_err_index yaml_std_bad yaml_has_key
+    std_check is_alnum unit_pq st (EvIngredient i) = Done (st', ds) ->
+  placed ds SevError (i_mods_span i).
+Proof. exact intermediate_modifiers_placed. Qed.
+Print Assumptions C07_intermediate_modifiers_placed.
+
+(* out-of-range intermediate reference: the value resolves to nothing ([resolve_intermediate_ref] = None:
+   0, beyond the steps of the section, beyond the past sections - C07_complete_intermediate_zero /
+   _step_out_of_range / _section_out_of_range give that from the shape).  Error; first label: the `(..)` data *)
+Theorem C07_intermediate_reference_placed :
+  forall (ci_key : str -> str) (yaml_ok : str -> bool) (find_iq : str -> option (str * str))
+    (unit_class : str -> N) (input : str) (x : Analysis.aext) (cfg : Analysis.acfg) 
+    (dc : dcfg) (yaml_err_index : str -> option N) (yaml_std_bad : str -> list str)
+    (yaml_has_key std_check : str -> str -> bool) (is_alnum : N -> bool) (unit_pq : str -> option N)
+    (st : dstate) (i : ingredient) (d : interdata) (st' : dstate) (ds : list adiag),
+  Analysis.a_halted (ds_a st) = false ->
+  in_step_block st ->
+  i_inter i = Some d ->
+  Analysis.resolve_intermediate_ref (ds_a st) (abstract_inter d) = Done None ->
+  dstep ci_key yaml_ok find_iq unit_class input x cfg dc yaml_err_index yaml_std_bad yaml_has_key
+    std_check is_alnum unit_pq st (EvIngredient i) = Done (st', ds) -> placed ds SevError (im_span d).
+Proof. exact intermediate_reference_placed. Qed.
+Print Assumptions C07_intermediate_reference_placed.
+
+(* conflicting reference, modifiers: a reference carrying a modifier (other than &) that its definition does
+   not have among the inheritable ones (1176-1207).  Error; first label: the modifiers *)
+Theorem C07_conflicting_modifiers_placed :
+  forall (ci_key : str -> str) (yaml_ok : str -> bool) (find_iq : str -> option (str * str))
+    (unit_class : str -> N) (input : str) (x : Analysis.aext) (cfg : Analysis.acfg) 
+    (dc : dcfg) (yaml_err_index : str -> option N) (yaml_std_bad : str -> list str)
+    (yaml_has_key std_check : str -> str -> bool) (is_alnum : N -> bool) (unit_pq : str -> option N)
+    (st : dstate) (i : ingredient) (j : nat) (def : Analysis.component) (st' : dstate)
+    (ds : list adiag),
+  Analysis.a_halted (ds_a st) = false ->
+  in_step_block st ->
+  i_inter i = None ->
+  refers_to ci_key (ds_a st) (Analysis.a_ingredients (ds_a st)) (imods i) (iname i) j ->
+  nth_error (Analysis.a_ingredients (ds_a st)) j = Some def ->
+  Events.mods_is_empty
+    (Events.mods_diff
+       (Events.mods_diff (imods i) (Events.mods_and (Analysis.c_mods def) Analysis.inherit_ingredient))
+       Events.M_ref_only) = false ->
+  dstep ci_key yaml_ok find_iq unit_class input x cfg dc yaml_err_index yaml_std_bad yaml_has_key
+    std_check is_alnum unit_pq st (EvIngredient i) = Done (st', ds) ->
+  placed ds SevError (i_mods_span i).
+Proof. exact conflicting_modifiers_placed. Qed.
+Print Assumptions C07_conflicting_modifiers_placed.
+
+(* ... cookware *)
+Theorem C07_conflicting_modifiers_cookware_placed :
+  forall (ci_key : str -> str) (yaml_ok : str -> bool) (find_iq : str -> option (str * str))
+    (unit_class : str -> N) (input : str) (x : Analysis.aext) (cfg : Analysis.acfg) 
+    (dc : dcfg) (yaml_err_index : str -> option N) (yaml_std_bad : str -> list str)
+    (yaml_has_key std_check : str -> str -> bool) (is_alnum : N -> bool) (unit_pq : str -> option N)
+    (st : dstate) (c : cookware) (j : nat) (def : Analysis.component) (st' : dstate) 
+    (ds : list adiag),
+  Analysis.a_halted (ds_a st) = false ->
+  in_step_block st ->
+  refers_to ci_key (ds_a st) (Analysis.a_cookware (ds_a st)) (cmods c) (cname c) j ->
+  nth_error (Analysis.a_cookware (ds_a st)) j = Some def ->
+  Events.mods_is_empty
+    (Events.mods_diff
+       (Events.mods_diff (cmods c) (Events.mods_and (Analysis.c_mods def) Analysis.inherit_cookware))
+       Events.M_ref_only) = false ->
+  dstep ci_key yaml_ok find_iq unit_class input x cfg dc yaml_err_index yaml_std_bad yaml_has_key
+    std_check is_alnum unit_pq st (EvCookware c) = Done (st', ds) ->
+  placed ds SevError (c_mods_span c).
+Proof. exact conflicting_modifiers_cookware_placed. Qed.
+Print Assumptions C07_conflicting_modifiers_cookware_placed.
+
+(* note on a reference (701-708, 1426-1447): a component that refers to a definition and has a note.
+   Error; first label: the note text *)
+Theorem C07_note_on_reference_placed :
+  forall (ci_key : str -> str) (yaml_ok : str -> bool) (find_iq : str -> option (str * str))
+    (unit_class : str -> N) (input : str) (x : Analysis.aext) (cfg : Analysis.acfg) 
+    (dc : dcfg) (yaml_err_index : str -> option N) (yaml_std_bad : str -> list str)
+    (yaml_has_key std_check : str -> str -> bool) (is_alnum : N -> bool) (unit_pq : str -> option N)
+    (st : dstate) (i : ingredient) (j : nat) (n : text) (st' : dstate) (ds : list adiag),
+  Analysis.a_halted (ds_a st) = false ->
+  in_step_block st ->
+  i_inter i = None ->
+  refers_to ci_key (ds_a st) (Analysis.a_ingredients (ds_a st)) (imods i) (iname i) j ->
+  i_note i = Some n ->
+  dstep ci_key yaml_ok find_iq unit_class input x cfg dc yaml_err_index yaml_std_bad yaml_has_key
+    std_check is_alnum unit_pq st (EvIngredient i) = Done (st', ds) ->
+  placed ds SevError (text_span n).
+Proof. exact note_on_reference_placed. Qed.
+Print Assumptions C07_note_on_reference_placed.
+
+(* ... cookware (926-933) *)
+Theorem C07_note_on_reference_cookware_placed :
+  forall (ci_key : str -> str) (yaml_ok : str -> bool) (find_iq : str -> option (str * str))
+    (unit_class : str -> N) (input : str) (x : Analysis.aext) (cfg : Analysis.acfg) 
+    (dc : dcfg) (yaml_err_index : str -> option N) (yaml_std_bad : str -> list str)
+    (yaml_has_key std_check : str -> str -> bool) (is_alnum : N -> bool) (unit_pq : str -> option N)
+    (st : dstate) (c : cookware) (j : nat) (n : text) (st' : dstate) (ds : list adiag),
+  Analysis.a_halted (ds_a st) = false ->
+  in_step_block st ->
+  refers_to ci_key (ds_a st) (Analysis.a_cookware (ds_a st)) (cmods c) (cname c) j ->
+  c_note c = Some n ->
+  dstep ci_key yaml_ok find_iq unit_class input x cfg dc yaml_err_index yaml_std_bad yaml_has_key
+    std_check is_alnum unit_pq st (EvCookware c) = Done (st', ds) -> placed ds SevError (text_span n).
+Proof. exact note_on_reference_cookware_placed. Qed.
+Print Assumptions C07_note_on_reference_cookware_placed.
+
+(* conflicting reference, quantities (720-732): a reference with a quantity to a definition that has a
+   quantity and was made outside a step (components mode).  Error; first label: the quantity of the reference *)
+Theorem C07_conflicting_quantity_placed :
+  forall (ci_key : str -> str) (yaml_ok : str -> bool) (find_iq : str -> option (str * str))
+    (unit_class : str -> N) (input : str) (x : Analysis.aext) (cfg : Analysis.acfg) 
+    (dc : dcfg) (yaml_err_index : str -> option N) (yaml_std_bad : str -> list str)
+    (yaml_has_key std_check : str -> str -> bool) (is_alnum : N -> bool) (unit_pq : str -> option N)
+    (st : dstate) (i : ingredient) (j : nat) (def : Analysis.component) (q : quantity) 
+    (st' : dstate) (ds : list adiag),
+  Analysis.a_halted (ds_a st) = false ->
+  in_step_block st ->
+  i_inter i = None ->
+  refers_to ci_key (ds_a st) (Analysis.a_ingredients (ds_a st)) (imods i) (iname i) j ->
+  nth_error (Analysis.a_ingredients (ds_a st)) j = Some def ->
+  Events.is_some (Analysis.c_qty def) = true ->
+  def_in_step def = false ->
+  i_qty i = Some q ->
+  dstep ci_key yaml_ok find_iq unit_class input x cfg dc yaml_err_index yaml_std_bad yaml_has_key
+    std_check is_alnum unit_pq st (EvIngredient i) = Done (st', ds) -> placed ds SevError (q_span q).
+Proof. exact conflicting_quantity_placed. Qed.
+Print Assumptions C07_conflicting_quantity_placed.
+
+(* ... cookware (936-948) *)
+Theorem C07_conflicting_quantity_cookware_placed :
+  forall (ci_key : str -> str) (yaml_ok : str -> bool) (find_iq : str -> option (str * str))
+    (unit_class : str -> N) (input : str) (x : Analysis.aext) (cfg : Analysis.acfg) 
+    (dc : dcfg) (yaml_err_index : str -> option N) (yaml_std_bad : str -> list str)
+    (yaml_has_key std_check : str -> str -> bool) (is_alnum : N -> bool) (unit_pq : str -> option N)
+    (st : dstate) (c : cookware) (j : nat) (def : Analysis.component) (v : qvalue) 
+    (qsp : span) (st' : dstate) (ds : list adiag),
+  Analysis.a_halted (ds_a st) = false ->
+  in_step_block st ->
+  refers_to ci_key (ds_a st) (Analysis.a_cookware (ds_a st)) (cmods c) (cname c) j ->
+  nth_error (Analysis.a_cookware (ds_a st)) j = Some def ->
+  Events.is_some (Analysis.c_qty def) = true ->
+  def_in_step def = false ->
+  c_qty c = Some (v, qsp) ->
+  dstep ci_key yaml_ok find_iq unit_class input x cfg dc yaml_err_index yaml_std_bad yaml_has_key
+    std_check is_alnum unit_pq st (EvCookware c) = Done (st', ds) -> placed ds SevError qsp.
+Proof. exact conflicting_quantity_cookware_placed. Qed.
+Print Assumptions C07_conflicting_quantity_cookware_placed.
+
+(* conflicting reference, units (ADVANCED_UNITS, 639-699): the unit of the reference cannot be added to that
+   of the definition or of one of its earlier references.  Warning (ctx.warn; extensions.md: "checks that
+   units between references are compatible"); first label: the unit of the reference, or its quantity when
+   it has no unit ([uq_span]) *)
+Theorem C07_incompatible_units_placed :
+  forall (ci_key : str -> str) (yaml_ok : str -> bool) (find_iq : str -> option (str * str))
+    (unit_class : str -> N) (input : str) (x : Analysis.aext) (cfg : Analysis.acfg) 
+    (dc : dcfg) (yaml_err_index : str -> option N) (yaml_std_bad : str -> list str)
+    (yaml_has_key std_check : str -> str -> bool) (is_alnum : N -> bool) (unit_pq : str -> option N)
+    (st : dstate) (i : ingredient) (j : nat) (def : Analysis.component) (rf : list nat) 
+    (b : bool) (q : quantity) (k : nat) (c : Analysis.component) (qi : Analysis.qinfo) 
+    (st' : dstate) (ds : list adiag),
+  Analysis.a_halted (ds_a st) = false ->
+  in_step_block st ->
+  i_inter i = None ->
+  Analysis.x_advanced x = true ->
+  refers_to ci_key (ds_a st) (Analysis.a_ingredients (ds_a st)) (imods i) (iname i) j ->
+  nth_error (Analysis.a_ingredients (ds_a st)) j = Some def ->
+  Analysis.c_rel def = Analysis.RDef rf b ->
+  i_qty i = Some q ->
+  In k (j :: rf) ->
+  nth_error (Analysis.a_ingredients (ds_a st)) k = Some c ->
+  Analysis.c_qty c = Some qi ->
+  compatible_unit unit_pq (Analysis.qi_unit qi) (option_map text_trimmed (q_unit q)) <> IcOk ->
+  dstep ci_key yaml_ok find_iq unit_class input x cfg dc yaml_err_index yaml_std_bad yaml_has_key
+    std_check is_alnum unit_pq st (EvIngredient i) = Done (st', ds) ->
+  placed ds SevWarning (uq_span q).
+Proof. exact incompatible_units_placed. Qed.
+Print Assumptions C07_incompatible_units_placed.
+
+(* non-time timer unit (ADVANCED_UNITS, 996-1016): the unit is unknown to the converter (class 0) or not a
+   time unit (class 2).  Error; first label: the unit text *)
+Theorem C07_timer_unit_placed :
+  forall (ci_key : str -> str) (yaml_ok : str -> bool) (find_iq : str -> option (str * str))
+    (unit_class : str -> N) (input : str) (x : Analysis.aext) (cfg : Analysis.acfg) 
+    (dc : dcfg) (yaml_err_index : str -> option N) (yaml_std_bad : str -> list str)
+    (yaml_has_key std_check : str -> str -> bool) (is_alnum : N -> bool) (unit_pq : str -> option N)
+    (st : dstate) (t : timer) (q : quantity) (u : text) (st' : dstate) (ds : list adiag),
+  Analysis.a_halted (ds_a st) = false ->
+  in_step_block st ->
+  Analysis.x_advanced x = true ->
+  t_qty t = Some q ->
+  q_unit q = Some u ->
+  unit_class (text_trimmed u) <> 1 ->
+  dstep ci_key yaml_ok find_iq unit_class input x cfg dc yaml_err_index yaml_std_bad yaml_has_key
+    std_check is_alnum unit_pq st (EvTimer t) = Done (st', ds) -> placed ds SevError (text_span u).
+Proof. exact timer_unit_placed. Qed.
+Print Assumptions C07_timer_unit_placed.
+
+(* ... and a timer whose duration is text (990-995).  Error; first label: the value *)
+Theorem C07_timer_text_value_placed :
+  forall (ci_key : str -> str) (yaml_ok : str -> bool) (find_iq : str -> option (str * str))
+    (unit_class : str -> N) (input : str) (x : Analysis.aext) (cfg : Analysis.acfg) 
+    (dc : dcfg) (yaml_err_index : str -> option N) (yaml_std_bad : str -> list str)
+    (yaml_has_key std_check : str -> str -> bool) (is_alnum : N -> bool) (unit_pq : str -> option N)
+    (st : dstate) (t : timer) (q : quantity) (st' : dstate) (ds : list adiag),
+  Analysis.a_halted (ds_a st) = false ->
+  in_step_block st ->
+  Analysis.x_advanced x = true ->
+  t_qty t = Some q ->
+  Events.pvalue_is_text (abstract_value (qv (q_val q))) = true ->
+  dstep ci_key yaml_ok find_iq unit_class input x cfg dc yaml_err_index yaml_std_bad yaml_has_key
+    std_check is_alnum unit_pq st (EvTimer t) = Done (st', ds) ->
+  placed ds SevError (qv_span (q_val q)).
+Proof. exact timer_text_value_placed. Qed.
+Print Assumptions C07_timer_text_value_placed.
+
+(* bad mode value (356-371): `[mode]` / `[define]` with none of the six spellings, `[duplicate]` with none
+   of the four ([bad_config_value]).  Error; first label: the value text *)
+Theorem C07_bad_mode_value_placed :
+  forall (ci_key : str -> str) (yaml_ok : str -> bool) (find_iq : str -> option (str * str))
+    (unit_class : str -> N) (input : str) (x : Analysis.aext) (cfg : Analysis.acfg) 
+    (dc : dcfg) (yaml_err_index : str -> option N) (yaml_std_bad : str -> list str)
+    (yaml_has_key std_check : str -> str -> bool) (is_alnum : N -> bool) (unit_pq : str -> option N)
+    (st : dstate) (k v : text) (ck : list N) (st' : dstate) (ds : list adiag),
+  Analysis.a_halted (ds_a st) = false ->
+  Analysis.x_modes x = true ->
+  text_trimmed k = 91 :: ck ++ [93] ->
+  bad_config_value ck (text_outer_trimmed v) = true ->
+  dstep ci_key yaml_ok find_iq unit_class input x cfg dc yaml_err_index yaml_std_bad yaml_has_key
+    std_check is_alnum unit_pq st (EvMetadata k v) = Done (st', ds) ->
+  placed ds SevError (text_span v).
+Proof. exact bad_mode_value_placed. Qed.
+Print Assumptions C07_bad_mode_value_placed.
+
+(* malformed front matter (238-252): exactly one diagnostic, of severity Error, labelled with the position
+   serde_yaml reports; when it reports none: with the whole front matter text ([fm_fallback], the code as it
+   is now: 45a4888), with nothing before that repair *)
+Theorem C07_bad_front_matter_error :
+  forall (ci_key : str -> str) (yaml_ok : str -> bool) (find_iq : str -> option (str * str))
+    (unit_class : str -> N) (input : str) (x : Analysis.aext) (cfg : Analysis.acfg) 
+    (dc : dcfg) (yaml_err_index : str -> option N) (yaml_std_bad : str -> list str)
+    (yaml_has_key std_check : str -> str -> bool) (is_alnum : N -> bool) (unit_pq : str -> option N)
+    (st : dstate) (t : text) (st' : dstate) (ds : list adiag),
+  Analysis.a_halted (ds_a st) = false ->
+  yaml_ok (text_str t) = false ->
+  dstep ci_key yaml_ok find_iq unit_class input x cfg dc yaml_err_index yaml_std_bad yaml_has_key
+    std_check is_alnum unit_pq st (EvYaml t) = Done (st', ds) ->
+  ds =
+  [mk KYamlError
+     match yaml_err_index (text_str t) with
+     | Some i => [(248, pos (fst (text_span t) + i))]
+     | None => if fm_fallback dc then [(248, text_span t)] else []
+     end].
+Proof. exact bad_front_matter_error. Qed.
+Print Assumptions C07_bad_front_matter_error.
+
+(* ... the code as it is now: whatever serde_yaml answers - no location, or a location inside the text it
+   was given (C04's oracle hypothesis yaml_index_ok implies that) - the first label lies in the front matter
+   text *)
+Theorem C07_bad_front_matter_placed :
+  forall (ci_key : str -> str) (yaml_ok : str -> bool) (find_iq : str -> option (str * str))
+    (unit_class : str -> N) (input : str) (x : Analysis.aext) (cfg : Analysis.acfg) 
+    (dc : dcfg) (yaml_err_index : str -> option N) (yaml_std_bad : str -> list str)
+    (yaml_has_key std_check : str -> str -> bool) (is_alnum : N -> bool) (unit_pq : str -> option N)
+    (st : dstate) (t : text) (st' : dstate) (ds : list adiag),
+  fm_fallback dc = true ->
+  Analysis.a_halted (ds_a st) = false ->
+  ev_fact (EvYaml t) ->
+  yaml_ok (text_str t) = false ->
+  (forall idx : N, yaml_err_index (text_str t) = Some idx -> idx <= blen (text_str t)) ->
+  dstep ci_key yaml_ok find_iq unit_class input x cfg dc yaml_err_index yaml_std_bad yaml_has_key
+    std_check is_alnum unit_pq st (EvYaml t) = Done (st', ds) -> placed ds SevError (text_span t).
+Proof. exact bad_front_matter_placed. Qed.
+Print Assumptions C07_bad_front_matter_placed.
+
+(* the code before 45a4888: when serde_yaml gives no location (Error::location() = None, e.g. "more than
+   one document": `---\na: 1\n...\nb: 2\n---`) the Error diagnostic has no label at all, so no label
+   lies on anything *)
+Theorem C07_bad_front_matter_unlabeled_before_fix :
+  forall (ci_key : str -> str) (yaml_ok : str -> bool) (find_iq : str -> option (str * str))
+    (unit_class : str -> N) (input : str) (x : Analysis.aext) (cfg : Analysis.acfg) 
+    (dc : dcfg) (yaml_err_index : str -> option N) (yaml_std_bad : str -> list str)
+    (yaml_has_key std_check : str -> str -> bool) (is_alnum : N -> bool) (unit_pq : str -> option N)
+    (st : dstate) (t : text) (st' : dstate) (ds : list adiag),
+  fm_fallback dc = false ->
+  Analysis.a_halted (ds_a st) = false ->
+  yaml_ok (text_str t) = false ->
+  yaml_err_index (text_str t) = None ->
+  dstep ci_key yaml_ok find_iq unit_class input x cfg dc yaml_err_index yaml_std_bad yaml_has_key
+    std_check is_alnum unit_pq st (EvYaml t) = Done (st', ds) ->
+  errs ds = true /\ (forall (sev : severity) (sp : span), ~ placed ds sev sp).
+Proof. exact bad_front_matter_unlabeled_before_fix. Qed.
+Print Assumptions C07_bad_front_matter_unlabeled_before_fix.
+
+(* ... and that happens: the placement statement was FALSE on the code before 45a4888.  Witness: the
+   parser model on "---\na: 1\n...\nb: 2\n---\nhi\n" ([DiagExamples.t_fm_multi]) with an oracle that, like
+   serde_yaml, rejects it without a location; the implementation of 17e6a01 / 200c896 agreed (recipe
+   harness: ["e","Analysis",[]]); found here, repaired in /repo by 45a4888 *)
+Theorem C07_front_matter_unlabeled_refuted_before_fix :
+  exists
+    (ci_key : str -> str) (yaml_ok : str -> bool) (find_iq : str -> option (str * str)) 
+  (unit_class : str -> N) (input : str) (x : Analysis.aext) (cfg : Analysis.acfg) 
+  (yaml_err_index : str -> option N) (yaml_std_bad : str -> list str) (yaml_has_key
+                                                                       std_check : 
+                                                                       str -> str -> bool) 
+  (is_alnum : N -> bool) (unit_pq : str -> option N) (st : dstate) (t : text) 
+  (st' : dstate) (ds : list adiag),
+    DiagExamples.ex_at DiagExamples.t_fm_multi 0 = Some (st, EvYaml t) /\
+    Analysis.a_halted (ds_a st) = false /\
+    ev_fact (EvYaml t) /\
+    yaml_ok (text_str t) = false /\
+    dstep ci_key yaml_ok find_iq unit_class input x cfg dcfg_before_45a4888 yaml_err_index
+      yaml_std_bad yaml_has_key std_check is_alnum unit_pq st (EvYaml t) = 
+    Done (st', ds) /\
+    map to_sdiag ds = [DiagExamples.err []] /\
+    (forall (sev : severity) (sp : span), ~ placed ds sev sp).
+Proof. exact DiagExamples.front_matter_unlabeled_refuted_before_fix. Qed.
+Print Assumptions C07_front_matter_unlabeled_refuted_before_fix.
+
+(* every label of every diagnostic of the model (and of the `>>` notice) is produced by a site of the
+   enumeration of Model/AnalysisLabels.v with the same source line, on the events seen so far ([from_site];
+   the one label that enumeration of 17e6a01 does not have yet is the whole front matter text of 45a4888, the
+   span of a parser event); with C04_analysis_labels_ok / C04_event_spans_ok: in bounds and on character
+   boundaries *)
+Theorem C07_labels_from_sites :
+  forall (ci_key : str -> str) (yaml_ok : str -> bool) (find_iq : str -> option (str * str))
+    (unit_class : str -> N) (input : str) (x : Analysis.aext) (cfg : Analysis.acfg) 
+    (dc : dcfg) (yaml_err_index : str -> option N) (yaml_std_bad : str -> list str)
+    (yaml_has_key std_check : str -> str -> bool) (is_alnum : N -> bool) (unit_pq : str -> option N)
+    (evs : list pevent) (st : dstate) (seen : list pevent) (st' : dstate) 
+    (ds : list adiag),
+  locs_in st seen ->
+  drun ci_key yaml_ok find_iq unit_class input x cfg dc yaml_err_index yaml_std_bad yaml_has_key
+    std_check is_alnum unit_pq st evs = Done (st', ds) ->
+  all_from_sites yaml_err_index (seen ++ evs) (ds ++ dfinish st') /\ locs_in st' (seen ++ evs).
+Proof. exact drun_labels_from_sites. Qed.
+Print Assumptions C07_labels_from_sites.
+
+(* soundness over the analysis model: on a clean stream ([clean_run]: decidable, see Proofs/AnalysisSound.v)
+   the collector does not panic and pushes NO diagnostic, for every extension record and oracle *)
+Theorem C07_clean_run_sound :
+  forall (ci_key : str -> str) (yaml_ok : str -> bool) (find_iq : str -> option (str * str))
+    (unit_class : str -> N) (input : str) (x : Analysis.aext) (cfg : Analysis.acfg) 
+    (dc : dcfg) (yaml_err_index : str -> option N) (yaml_std_bad : str -> list str)
+    (yaml_has_key std_check : str -> str -> bool) (is_alnum : N -> bool) (unit_pq : str -> option N)
+    (evs : list pevent) (st : dstate),
+  Analysis.a_halted (ds_a st) = false ->
+  clean_run ci_key yaml_ok find_iq unit_class input x cfg dc yaml_err_index yaml_std_bad yaml_has_key
+    std_check is_alnum unit_pq st evs = true ->
+  exists st' : dstate,
+    drun ci_key yaml_ok find_iq unit_class input x cfg dc yaml_err_index yaml_std_bad yaml_has_key
+      std_check is_alnum unit_pq st evs = Done (st', []) /\
+    Analysis.a_halted (ds_a st') = false /\ existsb is_perror evs = false.
+Proof. exact clean_run_sound. Qed.
+Print Assumptions C07_clean_run_sound.
+
+(* ... and through parse_events: the report of a clean stream holds nothing but the `>>` deprecation
+   notice (one Warning, present exactly when a non-config `>>` entry was seen), and the result is valid.
+   Partial with respect to [C07_full_statement]: clean streams instead of the event streams of all
+   well-formed recipes (no link to the printer of C01, no parser-stage part) *)
+Theorem C07_analysis_sound_partial :
+  forall (ci_key : str -> str) (yaml_ok : str -> bool) (find_iq : str -> option (str * str))
+    (unit_class : str -> N) (input : str) (x : Analysis.aext) (cfg : Analysis.acfg) 
+    (dc : dcfg) (yaml_err_index : str -> option N) (yaml_std_bad : str -> list str)
+    (yaml_has_key std_check : str -> str -> bool) (is_alnum : N -> bool) (unit_pq : str -> option N)
+    (dbg : bool) (evs : list pevent) (res : pass_result dstate),
+  clean_run ci_key yaml_ok find_iq unit_class input x cfg dc yaml_err_index yaml_std_bad yaml_has_key
+    std_check is_alnum unit_pq dinit evs = true ->
+  parse_events dstate
+    (astep ci_key yaml_ok find_iq unit_class input x cfg dc yaml_err_index yaml_std_bad yaml_has_key
+       std_check is_alnum unit_pq) afinish dbg dinit evs = Done res ->
+  exists st : dstate,
+    drun ci_key yaml_ok find_iq unit_class input x cfg dc yaml_err_index yaml_std_bad yaml_has_key
+      std_check is_alnum unit_pq dinit evs = Done (st, []) /\
+    diags res = map to_sdiag (dfinish st) /\
+    is_valid res = true /\
+    (forall d : sdiag, In d (diags res) -> sd_sev d = SevWarning /\ sd_stage d = StAnalysis) /\
+    (ds_used st = [] -> diags res = []).
+Proof. exact analysis_sound. Qed.
+Print Assumptions C07_analysis_sound_partial.
+
+(* the hypotheses of the placement theorems are satisfiable and the clean class is not trivial: for
+   each family the parser model is run on the construct of the catalogue, the collector on the events
+   before it, and the state reached and the offending event satisfy the hypotheses (with the
+   diagnostic that results, e.g. `@&zznowhere{}` -> Error [(0, 13)]); a 26-event recipe with front
+   matter, config entry, two sections, definitions, references, cookware and timers is clean *)
+Definition C07_examples :=
+  (DiagExamples.ex_dangling_reference, DiagExamples.ex_dangling_reference_cookware,
+   DiagExamples.ex_new_ref_modifiers, DiagExamples.ex_intermediate_modifiers,
+   DiagExamples.ex_intermediate_reference, DiagExamples.ex_conflicting_modifiers,
+   DiagExamples.ex_conflicting_modifiers_cookware, DiagExamples.ex_note_on_reference,
+   DiagExamples.ex_note_on_reference_cookware, DiagExamples.ex_conflicting_quantity,
+   DiagExamples.ex_conflicting_quantity_cookware, DiagExamples.ex_incompatible_units,
+   DiagExamples.ex_timer_unit, DiagExamples.ex_timer_text_value, DiagExamples.ex_bad_mode_value,
+   DiagExamples.ex_bad_front_matter, DiagExamples.ex_bad_front_matter_unlocated,
+   DiagExamples.ex_clean_stream, DiagExamples.ex_clean_stream_notice, DiagExamples.ex_unclean_stream).
 
 (* ================================================================ the full statement
    (not a theorem: decided per run by the monitor of checks/c07.py on the implementation, and -
